@@ -15,7 +15,7 @@ FUNCTIONS = ['generator_shared.create_pref_lists_from_other_lists', 'generator_s
 EXPLANATION = (
     'Symbolic execution (pathsym) of the real second-side list construction. First-side lists are vectors of symbolic integers (pairwise '
     'distinct, in 1..n2; every list-length vector enumerated); indexing by an entry forks over every feasible value; random.shuffle is a '
-    'symbolic permutation and the tie draws are symbolic 0/1 vectors (contract stubs). The instance text is produced by the real create_instance '
+    'symbolic permutation and the tie draws are symbolic 0/1 vectors (contract stubs); project and lecturer quotas / targets passed to create_instance are symbolic (0 <= lower <= target <= upper). The instance text is produced by the real create_instance '
     '(HR and SPA) and read back by an independent reader that maps placeholder tokens to terms. Per path z3 proves: agent i occurs exactly once in '
     'second-side list j iff j is in first-side list i (HR/SM), resp. iff student i ranks at least one project offered by lecturer j (SPA); no '
     'other agent occurs. Counterexamples are replayed on the real generator functions with the RNG scripted.')
@@ -31,7 +31,7 @@ EXHAUSTIVE = {}
 
 def BOUNDS(tier):
     b = 2 if tier == 'quick' else 3
-    return 'hr: n1,n2 <= %d (total list length <= 6); spa: n1 <= %d, n2 <= 3, n3 <= 3 (incl. more lecturers than projects; total list length <= 5 when n1 = 3); all list-length vectors within that, all lists, all shuffles' % (b, b)
+    return 'hr: n1,n2 <= %d (total list length <= 6); spa: n1 <= %d, n2 <= 3, n3 <= 3 (incl. more lecturers than projects; total list length <= 5 when n1 = 3); all list-length vectors within that, all lists, all shuffles, all quota vectors (symbolic)' % (b, b)
 
 
 def tasks(tier, seed):
